@@ -127,6 +127,24 @@ def merged(cells, shares, tol):
 
 
 VALUE = 1000.0
+WHOLE = 7  # GridSegment.tla VarForms: the second integrated variable of every case is a whole-number (int64) array
+
+
+def whole_var(n=1):
+    return np.array([WHOLE + 2 * i for i in range(n)], dtype=np.int64)
+
+
+def whole_devs(what, first, firstvals, second, secondvals):
+    """The share of every piece is the same for every integrated variable, whatever its array form."""
+    a = np.asarray(first, float)
+    b = np.asarray(second, float)
+    if len(a) != len(b):
+        return [('C05', 'misaligned-lengths', f'{what}: integrated variables have {len(a)} and {len(b)} pieces')]
+    tot, want = float(np.sum(b)), float(np.sum(secondvals))
+    out = []
+    if not (want * (1 - 1e-9) <= tot <= want * (1 + 0.05)):
+        out.append(('C04', 'not-conserved:whole-number-variable', f'{what}: the integrated variable handed over as int64 array {np.asarray(secondvals).tolist()} totals {tot} after gridding'))
+    return out
 
 
 def run_segment(job):
@@ -143,13 +161,14 @@ def run_segment(job):
         exact = frame_key[1] <= 0.011 and abs(frame_key[2]) < 1.0
         devs = []
         try:
-            tl, to, _, _, sv, iv = grid_twice(f.g2, lats, lons, state_variables=(np.array([7.0, 9.0]),), integrated_variables=(np.array([VALUE]),))
+            tl, to, _, _, sv, iv = grid_twice(f.g2, lats, lons, state_variables=(np.array([7.0, 9.0]),), integrated_variables=(np.array([VALUE]), whole_var()))
         except Exception as e:
             return [(pr, f'raised-{type(e).__name__}', f'segment {s}: grid_trajectory raised {type(e).__name__}: {e}') for pr in _props_of(e)]
         n = len(tl)
         if not (len(to) == n and len(sv[0]) == n and len(iv[0]) == n):
             devs.append(('C05', 'misaligned-lengths', f'segment {s}: output lengths lat {n}, lon {len(to)}, state {len(sv[0])}, integrated {len(iv[0])}'))
             return devs
+        devs += whole_devs(f'segment {s}', iv[0], [VALUE], iv[1], whole_var())
         total = float(np.sum(iv[0]))
         hi = 1e-6 if exact else 0.05
         if not (VALUE * (1 - 1e-9) <= total <= VALUE * (1 + hi)):
@@ -188,7 +207,7 @@ def run_chain(job):
         alts, times = f.alt([p['a'] for p in pts]), f.time([p['t'] for p in pts])
         state = np.arange(1, npt + 1, dtype=float)
         vals = np.array([100.0 * (i + 1) for i in range(npt - 1)])
-        vals2 = np.array([3.0 * (i + 2) for i in range(npt - 1)])
+        vals2 = np.array([3 * (i + 2) for i in range(npt - 1)], dtype=np.int64)  # VarForms: whole-number array
         devs = []
         try:
             tl, to, ta, tt, sv, iv = grid_twice(f.g4, lats, lons, alts, times, state_variables=(state, state * 10), integrated_variables=(vals, vals2))
@@ -266,7 +285,7 @@ def run_dateline(case):
         alts = (np.array([c['as'], 3]) / Q + PAD) * 1000.0
         times = (np.array([c['ts'], 5]) / Q + PAD) * 600.0
         try:
-            tl, to, ta, tt, sv, iv = grid_twice(g, lats, lons, alts, times, state_variables=(np.array([7.0, 9.0]),), integrated_variables=(np.array([VALUE]),))
+            tl, to, ta, tt, sv, iv = grid_twice(g, lats, lons, alts, times, state_variables=(np.array([7.0, 9.0]),), integrated_variables=(np.array([VALUE]), whole_var()))
         except Exception as e:
             return [(pr, f'dateline-raised-{type(e).__name__}', f'antimeridian case {c}: raised {type(e).__name__}: {e}') for pr in _props_of(e)]
         n = len(tl)
@@ -279,6 +298,7 @@ def run_dateline(case):
             devs.append(('C05', 'dateline-altitude-or-time-cell', f'antimeridian case {c}: pieces carry altitude cells {sorted(ac)} and time cells {sorted(tc)}; specification: those of the start point ({case["acell"]}, {case["tcell"]})'))
         if any(float(sv[0][i]) != 7.0 for i in live):
             devs.append(('C05', 'dateline-state-not-from-start-point', f'antimeridian case {c}: state values {sorted(set(np.asarray(sv[0]).tolist()))}; specification: 7.0'))
+        devs += whole_devs(f'antimeridian case {c}', iv[0], [VALUE], iv[1], whole_var())
         total = float(np.sum(iv[0])) / VALUE
         if not (1 - 1e-9 <= total <= 1 + 1e-6):
             devs.append(('C04', 'dateline-not-conserved', f'antimeridian case {c}: pieces add up to {total:.9f} of the segment value'))
@@ -388,7 +408,7 @@ def run_grid(ctx: Ctx, pid: str):
     ctx.rule = (
         'segments = every ordered pair of points of the quarter-cell lattice (9x9 quick: 6 561; 13x13 thorough: 28 561) incl. points on lines/corners, '
         'axis-parallel, diagonal, westward/southward and zero-length segments, on the equatorial 0.01-degree grid (exact shares) and on 1- and 5-degree grids at '
-        'latitudes up to 60 degrees (cells, order, conservation band); multi-segment trajectories with altitude/time axes and state variables by seeded TLC random walks; '
+        'latitudes up to 60 degrees (cells, order, conservation band); multi-segment trajectories with altitude/time axes and state variables by seeded TLC random walks; every case carries a float64 and a whole-number (int64) integrated variable; '
         'all antimeridian dog-leg placements x start altitude/time cells (10 368); every sequence of 3 griddings over 2 grids x 2 tracks in one fresh process each (GridSession.tla); non-trivial = segment crosses at least one grid line or is degenerate'
     )
     ctx.assumptions += [
